@@ -3,7 +3,7 @@
     (np.minimum with nextafter((i+1)/size, 0)), inner loop bounded at the last non-zero weight; it is the comb of the
     closed-form theorems run on the weights up to that index. *)
 From Coq Require Import List Bool Arith ZArith QArith Qround.
-From Tempest Require Import Base.Ops Model.Resample Proofs.Resample Proofs.ResampleQ Proofs.ResampleU Proofs.ResampleZ Link.Resample.
+From Tempest Require Import Base.Ops Model.Resample Proofs.Resample Proofs.ResampleQ Proofs.ResampleU Proofs.ResampleZ Proofs.ResampleNZ Proofs.ResampleF Link.Resample.
 Import ListNotations.
 
 (** For every arithmetic instance (exact rationals and binary64 alike), every non-empty
@@ -54,6 +54,32 @@ Theorem C06_zero_weight_never_selected :
   exists idx, sysres2 QOps true n w sqrteps u0 = Some idx /\ copies idx k = 0%nat.
 Proof. exact sysres2_skips_zero_weights. Qed.
 Print Assumptions C06_zero_weight_never_selected.
+
+(** The same for EVERY arithmetic in which (A) adding a zero weight does not change the loop test and (B) every tooth is
+    >= a zero weight: whenever some weight is non-zero, every returned index carries a non-zero weight. *)
+Theorem C06_nonzero_selection_any_arithmetic :
+  forall T (o : Ops T), (forall p c z, is_zero o z = true -> o_geb o p (o_add o c z) = o_geb o p c) ->
+  forall size w s sqrteps u0 idx,
+  let w' := if renorm_needed o s sqrteps then renorm o w s else w in
+  drop_zeros o (rev w') <> [] ->
+  (forall p, In p (cpositions o u0 size) -> forall z, is_zero o z = true -> o_geb o p z = true) ->
+  sysres2_with_sum o true size w s sqrteps u0 = Some idx ->
+  forall i, In i idx -> exists wi, nth_error w' i = Some wi /\ is_zero o wi = false.
+Proof. exact @sysres2_selects_nonzero. Qed.
+Print Assumptions C06_nonzero_selection_any_arithmetic.
+
+(** ... and for binary64 itself: both laws are IEEE facts (proved through Flocq's formalisation), so the twin that is
+    executed bit for bit against the implementation never returns an index whose weight compares equal to zero, as soon
+    as every tooth compares >= +0. *)
+Theorem C06_binary64_never_selects_zero_weight :
+  forall size w s sqrteps u0 idx,
+  let w' := if renorm_needed FOps s sqrteps then renorm FOps w s else w in
+  drop_zeros FOps (rev w') <> [] ->
+  (forall p, In p (cpositions FOps u0 size) -> o_leb FOps (o_zero FOps) p = true) ->
+  sysres2_with_sum FOps true size w s sqrteps u0 = Some idx ->
+  forall i, In i idx -> exists wi, nth_error w' i = Some wi /\ o_eqb FOps wi (o_zero FOps) = false.
+Proof. exact sysres2_binary64_selects_nonzero. Qed.
+Print Assumptions C06_binary64_never_selects_zero_weight.
 
 (** Unbiasedness, measure-free: for weights (x :: r) >= 0 with exact sum 1 and n >= 1 teeth, the offsets u0 in [0,1)
     for which tooth i of the comb's output is index k form exactly the half-open interval [lo i k, hi i k), and the
